@@ -16,8 +16,13 @@ atomically with the state). Volatile: the accepted queue, the stage of the block
 caches. Blocks of a linear chain are identified with their heights (execution is deterministic,
 so ids / roots / results of the never-crashed node are functions of the height).
 
-Assumes `/verif/fixes/C18-pebble-compact-nil-limit.patch` (without it *every* start after an
-unclean shutdown fails inside `merkledb.New`, before any of the logic below runs).
+`restart` transcribes the start-up *after* `/verif/fixes/C18-restart-index-ahead.patch`
+(`extractLatestOutputBlock` returns the block at the state height whenever the index is not behind
+the state; snow re-processes the rest); `restartOrig` is the start-up before that repair and is
+kept for the counterexample theorems. Both assume the (committed) pebble `Compact(nil, nil)` fix.
+
+`event.NotifyAll` delivers to the subscribers one after the other; two subscribers `A`, `B`
+(registered in this order) are modelled, so that a crash between two deliveries is a state.
 -/
 namespace HyperModel.Crash
 
@@ -34,22 +39,25 @@ structure Node where
   toEnqueue : Option Nat
   /-- `acceptedQueue` (heights), head = block being processed -/
   queue : List Nat
-  /-- progress of the head of the queue: 0 nothing, 1 results written, 2 state committed -/
+  /-- progress of the head of the queue: 0 nothing, 1 results written, 2 state committed,
+  3 subscriber A notified -/
   stage : Nat
-  /-- heights delivered to the accepted-subscribers in this run, oldest first -/
-  notified : List Nat
+  /-- heights delivered to subscriber A / B in this run, oldest first -/
+  notifiedA : List Nat
+  notifiedB : List Nat
 deriving Repr
 
 /-- fresh node: genesis committed and indexed, genesis notified by `Initialize` -/
 def Node.init : Node :=
-  { p := { idx := 0, st := 0, res := none }, toEnqueue := none, queue := [], stage := 0, notified := [0] }
+  { p := { idx := 0, st := 0, res := none }, toEnqueue := none, queue := [], stage := 0, notifiedA := [0], notifiedB := [0] }
 
 inductive Ev where
   | indexUpdate   -- P1  `inputChainIndex.UpdateLastAccepted`
   | enqueue       -- P2  `queueAccept`
   | writeResults  -- P3  `executionResultsDB.Put(lastResultKey, results ‖ height)`
   | commitState   -- P4  `View.CommitToDB`
-  | notify        -- P5  `event.NotifyAll(acceptedSubs)`; the block leaves the pipeline
+  | notifyA       -- P5a `event.NotifyAll(acceptedSubs)`: first subscriber
+  | notifyB       -- P5b second subscriber; the block leaves the pipeline
 deriving DecidableEq, Repr
 
 /-- one atomic step of the pipeline (a disabled event leaves the node unchanged) -/
@@ -70,9 +78,13 @@ def step (n : Node) : Ev → Node
     match n.queue, n.stage with
     | h :: _, 1 => { n with p := { n.p with st := h }, stage := 2 }
     | _, _ => n
-  | .notify =>
+  | .notifyA =>
     match n.queue, n.stage with
-    | h :: rest, 2 => { n with queue := rest, stage := 0, notified := n.notified ++ [h] }
+    | h :: _, 2 => { n with stage := 3, notifiedA := n.notifiedA ++ [h] }
+    | _, _ => n
+  | .notifyB =>
+    match n.queue, n.stage with
+    | h :: rest, 3 => { n with queue := rest, stage := 0, notifiedB := n.notifiedB ++ [h] }
     | _, _ => n
 
 def run (n : Node) (evs : List Ev) : Node := evs.foldl step n
@@ -88,24 +100,39 @@ deriving DecidableEq, Repr
 /-- `reprocessFromOutputToInput`: heights `out+1 .. idx`, each verified, accepted and notified -/
 def reprocess (out idx : Nat) : List Nat := (List.range (idx - out)).map (· + out + 1)
 
-/-- Start-up of the code as it is. -/
-def restart (p : Persist) : Outcome :=
+/-- Start-up before `C18-restart-index-ahead.patch`. -/
+def restartOrig (p : Persist) : Outcome :=
   if p.idx = 0 then .ok 0 [0]                                   -- initLastAccepted: genesis
   else if p.idx ≠ p.st ∧ p.idx ≠ p.st + 1 then .errIndexAhead   -- extractLatestOutputBlock
   else if p.idx = p.st then
     (if p.res = some p.st then .ok p.st (reprocess p.st p.idx ++ [p.idx]) else .errResults)
   else .panicNil                                                -- idx = st+1: vm.chain == nil
 
+/-- Start-up of the repaired code. `extractLatestOutputBlock` returns the output block of the
+state height (with the stored results if they are the results of that block); then
+`reprocessFromOutputToInput` verifies, accepts and notifies `st+1 .. idx`, and `Initialize`
+notifies the last accepted block once more. The notifications go to every subscriber. -/
+def restart (p : Persist) : Outcome :=
+  if p.idx = 0 then .ok 0 [0]                                   -- initLastAccepted: genesis
+  else if p.idx < p.st then .errIndexAhead                      -- "invalid state"
+  else
+    match p.res with
+    | none => if p.st = 0 then .ok p.idx (reprocess p.st p.idx ++ [p.idx]) else .errResults
+    | some r =>
+      if r = p.st then .ok p.idx (reprocess p.st p.idx ++ [p.idx])
+      else if r = p.st + 1 ∧ p.st < p.idx then .ok p.idx (reprocess p.st p.idx ++ [p.idx])
+      else .errResults
+
 /-- persistent state after a successful start-up (everything up to `la` processed) -/
 def afterRestart (p : Persist) : Persist :=
   match restart p with
-  | .ok la _ => { p with st := la, res := if la = 0 then p.res else some la }
+  | .ok la _ => { idx := p.idx, st := la, res := if la = 0 then p.res else some la }
   | _ => p
 
-/-- **Repair design** (not applied to /repo): return the output block of the *state* height
-whenever `idx ≥ st`, notify it again, and let `reprocessFromOutputToInput` execute, accept and
-notify `st+1 .. idx`. -/
-def restartRepaired (p : Persist) : Outcome :=
+/-- **Further repair design** (not applied to /repo): additionally deliver the block at the state
+height again before re-processing, so that a crash between its commit and its (last)
+notification loses nothing. -/
+def restartRenotify (p : Persist) : Outcome :=
   if p.idx < p.st then .errIndexAhead
   else .ok p.idx ([p.st] ++ reprocess p.st p.idx ++ [p.idx])
 
